@@ -141,15 +141,17 @@ def h_distributor(n_ref, n_inc):
         shims.CURRENT["g"] = g if g.symbolic else None
         nums = [g.int("ref_number%d" % i, 1) for i in range(n_ref)]
         genes, transcripts = [], []
+        # contig names as they occur in reference assemblies (underscores and dots included)
+        contig = ["chr1", "chrUn_JH584304", "chr1_GL456211_random", "HSCHR6_MHC.1"][g.choice("contig_name", 4)]
         for i, n in enumerate(nums):
             if g.bool("ref%d_is_gene" % i):
-                genes.append(Obj(id=common.TranscriptNaming.novel_gene_prefix + "chr1_" + str(n)))
+                genes.append(Obj(id=common.TranscriptNaming.novel_gene_prefix + contig + "_" + str(n)))
             else:
-                transcripts.append(Obj(id=common.TranscriptNaming.transcript_prefix + str(n) + ".chr1" + common.TranscriptNaming.nnic_transcript_suffix))
+                transcripts.append(Obj(id=common.TranscriptNaming.transcript_prefix + str(n) + "." + contig + common.TranscriptNaming.nnic_transcript_suffix))
         genes.append(Obj(id="ENSG0001"))
         transcripts.append(Obj(id="transcript_of_something"))
         transcripts.append(Obj(id="ENST0001.2"))
-        d = call(g, id_policy.ExcludingIdDistributor, FakeDB(genes=genes, transcripts=transcripts), "chr1")
+        d = call(g, id_policy.ExcludingIdDistributor, FakeDB(genes=genes, transcripts=transcripts), contig)
         prev = 0
         for k in range(n_inc):
             v = call(g, d.increment)
@@ -212,10 +214,90 @@ def h_printer(n_models):
     return fn
 
 
+def h_fl_ids(n_paths):
+    """the real construct_fl_isoforms on n distinct full-length paths of one locus (same or different intron chains, symbolic
+    read counts, with/without polyA; a path with the reference chain reproduces the reference isoform): transcript ids in
+    the model list are pairwise distinct"""
+    from props import flblock
+    import src.graph_based_model_construction as gbmc
+
+    def fn(g):
+        chains = [[(11, 30), (41, 60)], [(11, 30), (45, 60)]]
+        seq = flblock.make_sequence([(11, 30), (41, 60), (45, 60)], [("GT", "AG")] * 3, 100)
+        gi = Obj(chr_id="chr1", gene_strands={"G": "+"}, empty=lambda: False, all_isoforms_introns={"REF1": chains[0]}, isoform_strands={"REF1": "+"},
+                 gene_id_map={"REF1": "G"}, all_isoforms_exons={"REF1": [(1, 10), (31, 40), (61, 100)]}, other_features={"REF1": []},
+                 sources={"REF1": "x", "G": "x"})
+        old = gbmc.GraphBasedModelConstructor.detected_known_isoforms
+        gbmc.GraphBasedModelConstructor.detected_known_isoforms = set()
+        try:
+            c = flblock.make_constructor(seq, flblock.default_params("auto"), gene_info=gi, known_introns=chains[0], reference_gene="G")
+            c.profile_constructor = Obj(construct_profiles=lambda exons, polya, cage: exons)
+            ref, other = flblock.StubAssigner("REF1"), flblock.StubAssigner(None)
+            c.assigner = Obj(assign_to_isoform=lambda rid, exons: (ref if [(exons[k][1] + 1, exons[k + 1][0] - 1) for k in range(len(exons) - 1)] == chains[0]
+                                                                   else other).assign_to_isoform(rid, exons))
+            paths = []
+            for i in range(n_paths):
+                ci = g.choice("path%d_chain" % i, 2)
+                paths.append(ci)
+                flblock.add_path(c, chains[ci], 1 + i, 100 - i, g.int("path%d_reads" % i, 0, 5), polya=bool(g.bool("path%d_polya" % i)))
+            call(g, c.construct_fl_isoforms)
+            ids = [m.transcript_id for m in c.transcript_model_storage]
+        finally:
+            gbmc.GraphBasedModelConstructor.detected_known_isoforms = old
+        g.check(len(set(ids)) == len(ids), "transcript ids of one locus are pairwise distinct", detail={"ids": ids, "path_chains": paths})
+    return fn
+
+
+def h_printers_share_storage(g):
+    """discharges the assumption of the printer harness against the real entry point: within one chromosome run,
+    transcript_models.gtf and extended_annotation.gtf are printed through ONE exon-id table (otherwise the same novel exon
+    gets different ids in the two files)"""
+    import os
+    import shutil
+    import src.dataset_processor as dp
+    import src.graph_based_model_construction as gbmc
+    import src.serialization as ser
+    from props import c10
+    with_db = bool(g.bool("run_with_annotation"))
+    d = os.path.join(c10.scratch(), "c17ids")
+    shutil.rmtree(d, ignore_errors=True)
+    os.makedirs(d)
+    saved = (dp.Fasta, dp.ReadAssignmentAggregator, dp.ReadAssignmentLoader, dp.GFFPrinter, dp.gffutils)
+    dp.Fasta = lambda *a, **k: {"chr1": "ACGT" * 50}
+    dp.ReadAssignmentAggregator = lambda *a, **k: c10.NoOp(read_stat_counter=dp.EnumStats(), global_counter=c10.NoOp(), transcript_model_global_counter=c10.NoOp(),
+                                                           global_printer=c10.NoOp())
+    dp.ReadAssignmentLoader = c10.FakeLoader
+    dp.GFFPrinter = c10.RecordingPrinter
+    dp.gffutils = Obj(FeatureDB=lambda path: FakeDB())
+    c10.RecordingPrinter.seen = []
+    old = gbmc.GraphBasedModelConstructor.detected_known_isoforms
+    try:
+        args = Obj(no_model_construction=False, reference="ref.fa", fai_file_name=None, resume=False, genedb="annotation.db" if with_db else None,
+                   check_canonical=False, sqanti_output=False)
+        dump = os.path.join(d, "smp.save")
+        with open(dump + "_multimappers_chr1", "wb") as fh:
+            ser.write_int(ser.TERMINATION_INT, fh)
+        sample = Obj(out_dir=d, prefix="smp", out_t2t_tsv=os.path.join(d, "t2t.tsv"))
+        call(g, dp.construct_models_in_parallel, sample, "chr1", dump, args, ["NA"])
+    finally:
+        dp.Fasta, dp.ReadAssignmentAggregator, dp.ReadAssignmentLoader, dp.GFFPrinter, dp.gffutils = saved
+        gbmc.GraphBasedModelConstructor.detected_known_isoforms = old
+    seen = c10.RecordingPrinter.seen
+    g.check(len(seen) == (2 if with_db else 1), "a run with an annotation builds the two GTF printers of the chromosome", detail={"printers": len(seen)})
+    g.check(all(x[0] is seen[0][0] for x in seen), "both GTF printers of a chromosome issue exon ids from one shared table")
+
+
 def instances(tier, seed):
     q = tier == "quick"
     I = "src.id_policy:"
     out = []
+    out.append(Instance("printers_share_exon_id_table", h_printers_share_storage, ["src.dataset_processor:construct_models_in_parallel"],
+                        "one chromosome run of the real entry point with / without annotation (collaborators faked)", weight=5))
+    for n in ((2,) if q else (2, 3)):
+        out.append(Instance("fl_transcript_ids[paths=%d]" % n, h_fl_ids(n), ["src.graph_based_model_construction:GraphBasedModelConstructor.construct_fl_isoforms",
+                                                                             "src.graph_based_model_construction:GraphBasedModelConstructor.get_transcript_id"],
+                            "%d full-length paths (two intron chains, one of them the reference isoform's), symbolic ends and read counts" % n,
+                            weight=40 * n, budget_s=900))
     for n_ref, n_calls in ([(0, 2), (1, 2), (2, 3)] if q else [(0, 2), (1, 2), (2, 3), (2, 4), (3, 3)]):
         for style in (0, 1):
             if n_ref == 0 and style == 1:
